@@ -61,7 +61,9 @@ as data, so that the pinned and the repaired code are instances of one model.
 `inqSubs`: the subscripts of the (skipped) first argument of an inquiry intrinsic are visited.
 `useIntents`: for a CALL of a PURE subroutine whose definition is in the same Container the
 arguments whose dummy is not INTENT(IN) get READWRITE.
-`cbRW`: a CodeBlock records every name of its text READWRITE (else nothing). -/
+`cbRW`: a CodeBlock (statement or expression) records every name of its text READWRITE (else nothing).
+`inqCb`: a CodeBlock that is the (skipped) first argument of an inquiry intrinsic is visited
+(`len(names(k)(1:n))` evaluates `n`; fixes/C11-inquiry-codeblock.patch). -/
 structure Rule where
   callRW : Bool → Bool → Bool
   intrRW : Bool → Bool → Bool → Bool
@@ -70,6 +72,7 @@ structure Rule where
   /-- every name that occurs in the text of a CodeBlock is recorded READWRITE
   (fixes/C11-codeblock-accesses.patch) -/
   cbRW : Bool
+  inqCb : Bool
 
 /-- the pinned code: `if self.is_pure: READ`; intrinsic arguments are always only visited -/
 def pinnedRule : Rule where
@@ -78,6 +81,7 @@ def pinnedRule : Rule where
   inqSubs := false
   useIntents := false
   cbRW := false
+  inqCb := false
 
 /-- fixes/C11-intrinsic-subroutine-args-written.patch only: an intrinsic that is a statement
 (child of a Schedule) marks its by-reference arguments READWRITE -/
@@ -87,6 +91,7 @@ def fixed1Rule : Rule where
   inqSubs := false
   useIntents := false
   cbRW := false
+  inqCb := false
 
 /-- the code with the first three C11 patches (intrinsic-subroutine-args-written,
 inquiry-subscripts, pure-subroutine-local-intents) -/
@@ -96,6 +101,7 @@ def fixed3Rule : Rule where
   inqSubs := true
   useIntents := true
   cbRW := false
+  inqCb := false
 
 /-- the code with all four C11 patches (… and codeblock-accesses) -/
 def fixedRule : Rule where
@@ -104,6 +110,16 @@ def fixedRule : Rule where
   inqSubs := true
   useIntents := true
   cbRW := true
+  inqCb := false
+
+/-- … and fixes/C11-inquiry-codeblock.patch -/
+def fixed5Rule : Rule where
+  callRW pure _ := !pure
+  intrRW _ _ isStmt := isStmt
+  inqSubs := true
+  useIntents := true
+  cbRW := true
+  inqCb := true
 
 /-- what the property needs: only a pure *function* leaves its arguments alone (a pure
 subroutine may have INTENT(OUT) dummies) -/
@@ -113,6 +129,7 @@ def idealRule : Rule where
   inqSubs := true
   useIntents := true
   cbRW := true
+  inqCb := true
 
 structure Ctx where
   rule : Rule
@@ -138,6 +155,12 @@ inductive Expr where
   | intr (k : Nat) (args : Expr)
   /-- user function call (call site `f`) -/
   | fcall (pure : Bool) (f : Nat) (args : Expr)
+  /-- an expression CodeBlock (opaque Fortran text, site `f`): `names` = the names occurring in its
+  text (in order, with repetitions), `rd` = the variables whose value its evaluation may read,
+  `dv` = the designated variable when the text is a variable designator (a sub-string of an array
+  element `names(k)(1:3)`, …): as an actual argument it associates the dummy with (part of) that
+  variable, so a callee may define it -/
+  | cb (f : Nat) (names rd : List Nat) (dv : Option Nat)
   | nil
   | cons (e rest : Expr)
   deriving DecidableEq, Repr, Inhabited
@@ -192,6 +215,14 @@ inductive Mode where
 
 def kindOf (rw : Bool) : Kind := if rw then .readwrite else .read
 
+/-- `CodeBlock.reference_accesses`: every name of the text READWRITE at the current location -/
+def cbAcc (c : Ctx) (names : List Nat) (l : Nat) : List Access :=
+  if c.rule.cbRW then names.map (fun x => ⟨x, .readwrite, l, 0⟩) else []
+
+/-- the variables of a designator CodeBlock that are read to locate the object (its subscripts
+and sub-string bounds): everything it reads except the designated variable itself -/
+def cbSubs (rd : List Nat) (dv : Option Nat) : List Nat := rd.filter (fun x => dv != some x)
+
 def elemMode : Option Kind → Mode
   | some k => .elem k
   | none => .val
@@ -217,6 +248,8 @@ def acc (c : Ctx) : Expr → Mode → Nat → List Access × Nat
       let r2 := acc c j .val r1.2
       (r1.1 ++ r2.1, r2.2)
   | .idxs _ _ is, .subs, l => acc c is .val l
+  -- `isinstance(self.arguments[0], Reference)` fails for a CodeBlock: not visited (unless repaired)
+  | .cb _ names _ _, .subs, l => (if c.rule.inqCb then cbAcc c names l else [], l)
   | _, .subs, l => ([], l)
   -- one by-reference argument: the access is added first, then the index expressions are visited
   | .var x, .elem k, l => ([⟨x, k, l, 0⟩], l)
@@ -230,6 +263,9 @@ def acc (c : Ctx) : Expr → Mode → Nat → List Access × Nat
   | .idxs a _ is, .elem k, l =>
       let r := acc c is .val l
       (⟨a, k, l, 0⟩ :: r.1, r.2)
+  -- CodeBlock.reference_accesses (an argument that is not a Reference is visited as an
+  -- ordinary node): the location counter is not advanced
+  | .cb _ names _ _, _, l => (cbAcc c names l, l)
   -- Reference.reference_accesses: index expressions first, then the READ of the variable
   | .lit _, _, l => ([], l)
   | .var x, _, l => ([⟨x, .read, l, 0⟩], l)
@@ -439,6 +475,9 @@ def evalT (ω : Oracle) (tb : Nat → IAttr) : Expr → Bool → Store → R
       else
         let q := applyUpd (ω.upd f vs) r.args 0 r.st
         ⟨ω.fval f vs, q.1, r.ev ++ q.2, none, []⟩
+  -- evaluating an expression CodeBlock may read the variables `rd`; a designator is passed by reference
+  | .cb f _ rd dv, _, σ =>
+      ⟨ω.fval f [], σ, rd.map (fun x => Event.rd (x, 0, 0)), dv.map (fun x => (x, 0, 0)), []⟩
   | .nil, _, σ => ⟨0, σ, [], none, []⟩
   | .cons e rest, skip, σ =>
       if skip then
@@ -451,6 +490,7 @@ def evalT (ω : Oracle) (tb : Nat → IAttr) : Expr → Bool → Store → R
               let b := evalT ω tb j false a.st
               ⟨0, b.st, a.ev ++ b.ev, none, []⟩
           | .idxs _ _ is => evalT ω tb is false σ
+          | .cb _ _ rd dv => ⟨0, σ, (cbSubs rd dv).map (fun x => Event.rd (x, 0, 0)), none, []⟩
           | _ => ⟨0, σ, [], none, []⟩
         let r2 := evalT ω tb rest false r1.st
         ⟨0, r2.st, r1.ev ++ r2.ev, none, (0, none) :: r2.args⟩
@@ -467,6 +507,7 @@ def subsT (ω : Oracle) (tb : Nat → IAttr) (e : Expr) (σ : Store) : Store × 
       ((evalT ω tb j false (evalT ω tb i false σ).st).st,
        (evalT ω tb i false σ).ev ++ (evalT ω tb j false (evalT ω tb i false σ).st).ev)
   | .idxs _ _ is => ((evalT ω tb is false σ).st, (evalT ω tb is false σ).ev)
+  | .cb _ _ rd dv => (σ, (cbSubs rd dv).map (fun x => Event.rd (x, 0, 0)))
   | _ => (σ, [])
 
 /-- the assigned location of an LHS: its index expressions are evaluated (the element itself
